@@ -527,12 +527,15 @@ pub fn run(cases: Vec<(String, Value)>, max_fail: usize, opts: &HashMap<String, 
                             if o == cx.span(t).1 {
                                 continue;
                             }
-                            // only the outermost `(` of a call / condition (a bracketed sub-expression is an expression position too, but be conservative)
+                            // every `(` inside the statement counts: the one of the call / condition and those of bracketed
+                            // sub-expressions (a position after `(` inside a statement, whatever stands before it)
                             let is_own = p.nodes.iter().any(|n| matches!(n.kind.as_str(), "Call" | "If" | "While" | "Assign") && n.first <= t && t <= n.last
                                 && !p.nodes.iter().any(|m| m.parent.map(|q| std::ptr::eq(&p.nodes[q], n)).unwrap_or(false) && m.first <= t && t <= m.last && m.last != usize::MAX));
-                            if !is_own {
-                                continue;
-                            }
+                            // a `(` in the index expression of an assignment's target stands left of the `:=` (known finding)
+                            let left_of_assign = p.nodes.iter().any(|n| n.kind == "Assign" && n.first <= t && t <= n.last && n.last != usize::MAX
+                                && (n.first..=n.last).find(|&j| p.toks[j].kind == "Assign").map(|j| t < j).unwrap_or(false)
+                                && !p.nodes.iter().any(|m| matches!(m.kind.as_str(), "Call" | "If" | "While") && m.first >= n.first && m.last <= n.last && m.first <= t && t <= m.last));
+                            let tk = if left_of_assign { "LParen-in-assignment-target".to_string() } else if is_own { tk.to_string() } else { format!("inner-{tk}") };
                             let got = ask!("textDocument/completion", cx.tdp(o), "C16");
                             let gv = items_of(&got, k_var);
                             if gv != vars {
